@@ -1068,6 +1068,23 @@ def prefix_closure_cases(tier, rng, name):
     return cases
 
 
+def gen_length_extremes(rng):
+    """Unsegmented messages whose 16-bit payload-length field is at its extremes (a 16-bit sum of header size + length wraps for
+    0xFFF0..0xFFFF) in buffers far shorter than declared, for generic and typed payload types, as the only and as the second message of a
+    frame — always part of the C02 / C19 / C20 workloads (not left to sampling)."""
+    cases = []
+    for ptype in (0xFE, 0x01, 0x08, 0x03):
+        ops = []
+        for ln in list(range(0xFFEE, 0x10000)) + [0x8000, 0x7FFF, 0xFF00, 0x00FF]:
+            for have in (0, 1, 24):
+                m = proto.message(rng.getrandbits(64), rng.getrandbits(32), 0, ptype, proto.rand_bytes(rng, have), length=ln)
+                pre = rng.choice([b"", proto.message(1, 2, 0, 0x05, b"\x01\x02\x03")])
+                ops.append(feed(proto.frame_header(1, 7, 1, 9, rng.getrandbits(16)) + pre + m))
+        ops.append("dec d pending")
+        cases.append(Case("c02len", ops, nontrivial=True, tags=("length-field-extremes",)))
+    return cases
+
+
 def gen_overdeclared_segments(tier, rng, n=None):
     """A valid first segment, then a continuation segment (matching version, message type and counter + 1) whose declared payload
     length EXCEEDS the bytes its frame carries (exactly sized buffers: a decoder that trusts the declared length copies what lies
@@ -1140,6 +1157,7 @@ def gen_c02(tier, rng):
         ops.append("dec d pending")
         cases.append(Case("c02", ops, nontrivial=True, tags=(tag,)))
     cases += gen_overdeclared_segments(tier, rng)
+    cases += gen_length_extremes(rng)
     # every typed payload kind with a payload shorter than its header as the LAST message of an exactly sized buffer
     # (a validator that touches a header field before its size check reads past the buffer here)
     for ty in sorted(set(proto.TY.values())):
